@@ -171,6 +171,9 @@ func (vm *VM) Run(globals Object, args ...Object) (Object, error) {
 
 	if vm.sp < stackSize {
 		if vv, ok := vm.stack[vm.sp-1].(*ObjectPtr); ok {
+			if vv.Value == nil {
+				return Undefined, nil
+			}
 			return *vv.Value, nil
 		}
 		return vm.stack[vm.sp-1], nil
